@@ -34,6 +34,9 @@ func (st *State) exec(th *Thread, fr *Frame, in ssa.Instruction) stepStatus {
 		if p.Obj == nil {
 			return st.runtimePanic(th, "nil pointer dereference (field address)")
 		}
+		if p.SymIdx != nil {
+			p = st.concretizePtr(p)
+		}
 		st.setLocal(fr, x, p.sub(x.Field))
 		return stNext
 	case *ssa.Field:
@@ -816,6 +819,9 @@ func (st *State) indexAddr(xv Value, idx *Term, xt, it types.Type) Ptr {
 		if x.Obj == nil {
 			panic(st.violation("nil pointer dereference (index)", nil))
 		}
+		if x.SymIdx != nil {
+			x = st.concretizePtr(x)
+		}
 		n := len(st.arrayAt(x).E)
 		st.check(tt.Cmp(OpULt, idx, tt.Const(uint64(n), 64)), "index out of range")
 		if idx.IsConst() {
@@ -1454,4 +1460,40 @@ func fnKey(fn *ssa.Function) string {
 		}
 	}
 	return s
+}
+
+
+// concretize enumerates the feasible values of t (bounded) and forks over them.
+func (st *State) concretize(t *Term, what string) uint64 {
+	if t.IsConst() {
+		return t.Val
+	}
+	if st.inPrefix() {
+		return uint64(st.decide("conc", nil2))
+	}
+	var alts []int64
+	excl := st.tt.True
+	for len(alts) < 300 {
+		r, m := st.w.solver.Check(st.pc, excl, true, "feas")
+		if r == Unsat {
+			break
+		}
+		if r == Unknown || m == nil {
+			panic(pathAbort{kind: "UNWIND", msg: "cannot enumerate values of symbolic " + what})
+		}
+		v := m.Eval(t)
+		alts = append(alts, int64(v))
+		excl = st.tt.And(excl, st.tt.Not(st.tt.Eq(t, st.tt.Const(v, t.W))))
+	}
+	if len(alts) >= 300 {
+		panic(pathAbort{kind: "UNWIND", msg: "more than 300 feasible values for symbolic " + what + " at " + st.curSite()})
+	}
+	v := uint64(st.decide("conc", alts))
+	return v
+}
+
+func (st *State) concretizePtr(p Ptr) Ptr {
+	v := st.concretize(p.SymIdx, "array index")
+	st.assume(st.tt.Eq(p.SymIdx, st.tt.Const(v, p.SymIdx.W)))
+	return Ptr{Obj: p.Obj, Path: p.Path}.sub(int(v))
 }
